@@ -284,6 +284,16 @@ func runC07(t *testing.T, tape *sim.Tape, tier string) *Outcome {
 		cl.useServer(rs)
 		o.stat("runs_misbehaving_handler", 1)
 	}
+	cl.Srv.RegisterExexutor("XLOADMOD", func(conn *redis.Conn, cmd string, args redis.Arguments) (*redis.Message, error) {
+		name, err := args.NextString()
+		if err != nil {
+			return nil, err
+		}
+		cl.Srv.RegisterExexutor(strings.ToUpper(name), func(*redis.Conn, string, redis.Arguments) (*redis.Message, error) {
+			return redis.NewStringMessage("loaded"), nil
+		})
+		return redis.NewOKMessage(), nil
+	})
 	cl.Sticky = tape.Draw(4, "sticky")
 	// a quarter of the runs switch on the scheduling points that the build inserts in front of every lock
 	// acquisition and sync.Map access (interleavings finer than the hand-placed yield points)
@@ -328,6 +338,15 @@ func runC07(t *testing.T, tape *sim.Tape, tier string) *Outcome {
 		var items [][]byte
 		var ds []string
 		for i := 0; i < n; i++ {
+			if tape.Draw(12, "appcommand") == 11 { // 0 stays the cheap choice
+				// a command of the application that registers a further executor while it runs (a "module loader"),
+				// and then that new command
+				mod := fmt.Sprintf("XMOD%dX%d", j, i)
+				items = append(items, resp.Cmd("XLOADMOD", mod), resp.Cmd(mod))
+				ds = append(ds, "XLOADMOD "+mod, mod)
+				o.stat("executors_registered_from_inside_a_command", 1)
+				continue
+			}
 			b, d := genOffenderItem(tape, g, fmt.Sprintf("o%d:", j), i, o)
 			items = append(items, b)
 			ds = append(ds, clipS(d, 140))
